@@ -78,6 +78,8 @@ def main():
                 t0 = time.time()
                 rc, o = sh("./check %s %s" % (p, tier), cwd=vcopy, env=env, timeout=3000)
                 viol = [l for l in o.split("\n") if l.startswith("VIOLATION")]
+                os.makedirs("/tmp/seed_res", exist_ok=True)
+                open("/tmp/seed_res/%s_%s.log" % (name, p), "w").write(o)
                 for v in viol:
                     m2 = re.search(r"replay=(\S+)", v)
                     if m2 and os.path.exists(m2.group(1)):
@@ -86,6 +88,7 @@ def main():
                             out.setdefault("replays", []).append({"prop": p, "site": rj.get("site"), "failure": rj.get("failure"), "detail": str(rj.get("detail"))[:300], "kind": rj.get("kind"), "broken": str(rj.get("broken"))[:300]})
                         except Exception:
                             pass
+                sh("mkdir -p /tmp/seed_res/replays_%s && cp %s/out/replays/%s_*.json /tmp/seed_res/replays_%s/ 2>/dev/null" % (name, vcopy, p, name))
                 out["check_%s" % p] = {"exit": rc, "violations": viol, "wall": round(time.time() - t0), "tail": o[-4000:] if rc not in (0, 1) else ""}
     finally:
         for w in (clean, mut):
